@@ -756,17 +756,39 @@ func (f *formatter) writeMessageLiteralElements(messageLiteralNode *ast.MessageL
 		// Separators ("," or ";") are optional. To avoid inconsistent formatted output,
 		// we suppress them, since they aren't needed. So we just write the element and
 		// ignore any optional separator in the AST.
+		var sepTrailingComments ast.Comments
 		if messageLiteralNode.Seps[i] != nil {
 			// Since we are dropping the optional trailing separator, we should
-			// possibly move its trailing comment to the element value so we don't
-			// lose it. Skip this step if the value already has a trailing comment.
-			sepTrailingComments := f.nodeInfo(messageLiteralNode.Seps[i]).TrailingComments()
+			// move its trailing comment to the element value so we don't lose it.
+			// If the value already has a trailing comment, the separator's
+			// comment is written on its own line below the element instead.
+			sepTrailingComments = f.nodeInfo(messageLiteralNode.Seps[i]).TrailingComments()
 			if sepTrailingComments.Len() > 0 &&
 				f.nodeInfo(messageLiteralNode.Elements[i].Val).TrailingComments().Len() == 0 {
-				f.setTrailingComments(messageLiteralNode.Elements[i].Val, sepTrailingComments)
+				f.setTrailingCommentsForValue(messageLiteralNode.Elements[i].Val, sepTrailingComments)
+				sepTrailingComments = ast.Comments{}
 			}
 		}
 		f.writeNode(messageLiteralNode.Elements[i])
+		f.writeMultilineComments(sepTrailingComments)
+	}
+}
+
+// setTrailingCommentsForValue sets the trailing comments of a message literal
+// field value. The writers of signed numbers and compound strings only consult
+// the comments of the tokens they consist of, so for these the comments are set
+// on the last token.
+func (f *formatter) setTrailingCommentsForValue(valueNode ast.ValueNode, comments ast.Comments) {
+	switch node := valueNode.(type) {
+	case *ast.NegativeIntLiteralNode:
+		f.setTrailingComments(node.Uint, comments)
+	case *ast.SignedFloatLiteralNode:
+		f.setTrailingComments(node.Float, comments)
+	case *ast.CompoundStringLiteralNode:
+		children := node.Children()
+		f.setTrailingComments(children[len(children)-1], comments)
+	default:
+		f.setTrailingComments(valueNode, comments)
 	}
 }
 
